@@ -345,7 +345,7 @@ impl<'a> DocGen<'a> {
                 let notation = if self.rng.pct(40) { "<!NOTATION n1 SYSTEM \"s1\"><!NOTATION n2 PUBLIC \"p2\">" } else { "" };
                 // replacement text with characters of two, three and four bytes: lengths and offsets of a merged
                 // text node that contains the reference count characters, not bytes
-                let v1 = self.rng.ps(&["v1", "v1", "é𝒳", "a\u{301}é"]);
+                let v1 = self.rng.ps(&["v1", "é𝒳", "a\u{301}é", "𝒳"]);
                 out.push_str(&format!(" [<!ENTITY e1 \"{}\"><!ENTITY e2 \"w &#38; w\">{}{}]", v1, notation, attlist));
             } else if !attlist.is_empty() {
                 out.push_str(&format!(" [{}]", attlist));
